@@ -22,7 +22,7 @@ RULE = ('histories of duty cycles / add_* / find_* on a full in-process client (
 ASSUMPTIONS = [
     'one clock reading per operation (the harness sets the clock before each call); the conductor is driven from one thread, as the agent does',
     'no resource (publication, subscription, image) is ever registered in these histories: the managed-resource registry is empty (C12 covers it); '
-    'broadcast errors inside do_work and repeated close handlers are C09/C10 matters and are not judged here (the close handler is only required to fire at least once per closing cycle)',
+    'broadcast errors inside do_work and which handlers a close fires, and how often, are C09/C10 matters: the handler log is compared with the model, but the oracle only judges the error-handler entries (service timeout, driver inactive, heartbeat lost) and the closed flag',
     'theorems cover all times, heartbeats and timeouts below 2^62; beyond that only the model/implementation correspondence is checked',
 ]
 TRUSTED = [
@@ -330,6 +330,7 @@ def extra_checks(run):
         'if now_ms > last_keepalive {',
         'if now_ms > self.time_of_last_check_managed_resources_ms + RESOURCE_TIMEOUT_MS {',
         'inter_service_timeout_ms: inter_service_timeout_ns / 1_000_000,',
+        'if self.is_closed.swap(true, Ordering::AcqRel) { return; }',     # close_all_resources runs once (model: close_all / close_log)
     ]
     missing = [n for n in needed if n not in norm]
     n_find = norm.count('if (self.epoch_clock)() > state.time_of_registration_ms + self.driver_timeout_ms {')
